@@ -16,7 +16,7 @@
     structure_preserved_markup_strip_partial markup_attr_newline_normalised reread_tree
     reread_rawtext_nostrip structure_preserved_rawtext_partial rawtext_covers_plain_templates
     rawtext_spec_is_plain_spec rawtext_no_etago_needed rawtext_etago_closes_element rawtext_site_not_escaped
-    reader_raw_mode_runs_to_etago structure_preserved_rawtext_as_written
+    reader_raw_mode_runs_to_etago structure_preserved_rawtext_as_written rawtext_strip_normalises_content
 -/
 import Genshi.Lemmas.Subst
 import Genshi.Lemmas.SubstTmpl
@@ -948,6 +948,20 @@ theorem rawtext_etago_closes_element :
       some [.start ['s', 'c', 'r', 'i', 'p', 't'] [], .end_ ['s', 'c', 'r', 'i', 'p', 't'], .start ['b'] [],
             .end_ ['s', 'c', 'r', 'i', 'p', 't']] ∧
     readDoc .html (serialize .html false (renderList env T)) ≠ some (coalesceR .html (expectedListR .html env T)) := by
+  decide
+
+/-- why `structure_preserved_rawtext_partial` is stated without whitespace stripping: with `strip_whitespace=True`
+    the filter normalises the raw text too (blanks before a newline, runs of newlines) — `<script>${v}</script>` with
+    `v = 'a<b  \n\n c'` is read back as `a<b\n c`, still unescaped; the specification there is `normWs` of the
+    concatenation, not the concatenation -/
+theorem rawtext_strip_normalises_content :
+    let T : List Subst.Node := [.el ['s', 'c', 'r', 'i', 'p', 't'] [] none [.site (.v (.var 0))]]
+    let env : Env := [.str ['a', '<', 'b', ' ', ' ', '\n', '\n', ' ', 'c']]
+    nodesOkR .html env T = true ∧
+    readDoc .html (serialize .html true (renderList env T)) =
+      some [.start ['s', 'c', 'r', 'i', 'p', 't'] [], .text ['a', '<', 'b', '\n', ' ', 'c'] false,
+            .end_ ['s', 'c', 'r', 'i', 'p', 't']] ∧
+    readDoc .html (serialize .html true (renderList env T)) ≠ some (coalesceR .html (expectedListR .html env T)) := by
   decide
 
 /-- a not-safe value inside `script` under html is NOT escaped (the exception), under xhtml it is -/
